@@ -89,6 +89,8 @@ type Eng struct {
 	loopList   []*loopInfo
 	tags       map[string]int
 	rtags      map[string]int
+	privLocals []privLocal
+	privMemo   map[*ssa.Alloc]bool
 	detAx      map[string]bool
 	detLits    map[string]map[int]map[string]bool // deterministic function -> string parameter -> literal arguments seen
 	strLits    map[string]T
@@ -153,6 +155,7 @@ func (e *Eng) reset() {
 	e.tagTypes = map[string]types.Type{}
 	e.implDone = map[string]bool{}
 	e.detAx = nil
+	e.privLocals = nil
 	if e.ifaceSeen == nil {
 		e.ifaceSeen = map[string]*types.Interface{}
 	}
@@ -476,10 +479,13 @@ func (e *Eng) heapAxiom(name string, h T) T {
 
 // havocAll forgets everything about memory (call of an unknown function).
 func (e *Eng) havocAll(st *State, why string) {
+	saved := e.savePrivLocals(st)
+	defer e.restorePrivLocals(st, saved)
 	names := e.sortedHeapNames()
 	for _, n := range names {
-		if n == "Alloc" || strings.HasPrefix(n, "G|holds_") || strings.HasPrefix(n, "G|chan") || e.w.stableGlobal(n) || e.w.immutableHeap(n) {
-			// tokens and channel counters are ghost state of this function's own control flow
+		if n == "Alloc" || strings.HasPrefix(n, "G|holds_") || strings.HasPrefix(n, "G|chan") || strings.HasPrefix(n, "G|snap_") || e.w.stableGlobal(n) || e.w.immutableHeap(n) {
+			// tokens, channel counters and snapshot ghosts (G_snap_*: written by no code, only defined by
+			// call-site clauses) are ghost state of this function's own control flow
 			continue
 		}
 		st.heap[n] = e.heapAxiom(n, e.fresh("hv|"+n, e.heapNames[n]))
